@@ -25,7 +25,7 @@ def prop(pid, **kw):
     PROPS[pid] = kw
 
 
-prop('C05', engine='storesim', profiles={'quick': [('c05', 1600)], 'thorough': [('c05', 40000)]}, level='fault_enumeration',
+prop('C05', engine='storesim', profiles={'quick': [('c05', 1600)], 'thorough': [('c05', 40000)]}, level='fault_enumeration', prepare=lambda *x: c05_prepare(*x),
      rule='seeded fault histories over generated pipelines: each scenario = world + ops with crash index/tear/run fault/disk error; '
           'distinct = distinct scenario digest; non-trivial = at least one fault actually fired (crash reached its index, run fault raised, disk error injected)')
 
@@ -111,6 +111,35 @@ prop('C17', engine='pmapsim', profiles={'quick': [('pmap', 6000)], 'thorough': [
           'non-trivial = workers completed in an order different from input order; distinct = scenario digest')
 
 
+def c05_prepare(engine, tier, seed, a, cov):
+    """exhaustive crash-point enumeration (DESIGN.md 4 C05): counting runs, then every crash index x tears, disk errors, run faults"""
+    from tcsim.storesim import enum05
+    combos = enum05.combos()
+    if tier == 'quick':
+        # every change: one kind per data class (JSONData once as dict, once as str), 3 tear lengths; thorough: all 14 kinds, 7 tears
+        combos = [c for c in combos if c['kind'] in enum05.QUICK_KINDS]
+        enum05.TEARS[:] = enum05.TEARS[:3]
+    engine.explicit = [enum05.count_scenario(c) for c in combos]
+    recs, hung = core.run_batch(engine, 'explicit-count', 'C05', seed, len(combos), workers=a.workers, wall=600, opts={'return_obs': True})
+    scns = []
+    points = {}
+    for r in recs:
+        if 'obs' not in r:
+            raise RuntimeError('C05 counting run failed: ' + str(r.get('harness_error'))[:500])
+        if any(d['prop'] == 'C05' for d in r['discs']):
+            continue
+        lst, n = enum05.expand(combos[r['idx']], r['obs'])
+        c = combos[r['idx']]
+        points[f'{c["kind"]}/{"forced" if c["forced"] else "first"}/{c["shape"]}'] = n
+        scns += lst
+    engine.explicit = scns
+    cov['enumeration'] = {'combos': len(combos), 'mutating_fs_operations_per_request': points, 'scenarios': len(scns),
+                          'exhaustive_for': 'every crash index of the judged request of every listed combo, 7 tear lengths after every write-open, ENOSPC/EIO at every operation, every run-fault kind on every task involved',
+                          'kinds': sorted({c['kind'] for c in combos})}
+    cov['exhaustive'] = False
+    return [('explicit-enum', len(scns))]
+
+
 def get_engine(name):
     if name == 'pmapsim':
         from tcsim.pmapsim import PmapEngine
@@ -176,6 +205,46 @@ def zone_of(pid, scn, discs):
     return zones
 
 
+SELFTEST = [('storesim', p) for p in ('c01', 'c02', 'c04', 'c05', 'c06', 'c07', 'c12', 'c13', 'c18', 'c20')] + \
+           [('cachesim', 'c14'), ('cachesim', 'c16'), ('schedsim', 'sched'), ('pmapsim', 'pmap')]
+
+
+def digests(engine_name, profile, seed, n, workers):
+    engine = get_engine(engine_name)
+    recs, hung = core.run_batch(engine, profile, 'SELFTEST', seed, n, workers=workers, wall=1200)
+    return {str(r['idx']): r.get('digest') or ('HARNESS:' + r.get('harness_error', '?')[:80]) for r in recs}, hung
+
+
+def selftest(a):
+    """determinism: every engine/profile, n seeds, executed (1) here with W workers, (2) again here, (3) in a fresh interpreter
+    under another PYTHONHASHSEED with another worker count; observation digests must be identical. exit 2 on mismatch."""
+    import subprocess
+    seed = int(os.environ.get('VERIF_SEED', '0') or 0)
+    n = a.n or 60
+    bad = 0
+    total = 0
+    for eng, prof in SELFTEST:
+        if a.profile and prof != a.profile:
+            continue
+        d1, _ = digests(eng, prof, seed, n, 16)
+        d2, _ = digests(eng, prof, seed, n, 5)
+        env = dict(os.environ, PYTHONHASHSEED='987654')
+        out = subprocess.run([sys.executable, '-W', 'ignore', __file__, 'digests', '--profile', f'{eng}:{prof}', '--n', str(n), '--workers', '9'],
+                             env=env, capture_output=True, text=True, timeout=1800)
+        try:
+            d3 = json.loads(out.stdout.strip().splitlines()[-1])
+        except Exception:
+            print('selftest: fresh interpreter failed', out.stderr[-500:])
+            d3 = {}
+        mism = [i for i in d1 if not (d1[i] == d2.get(i) == d3.get(i)) or str(d1[i]).startswith('HARNESS')]
+        total += len(d1)
+        bad += len(mism)
+        print(f'selftest {eng}:{prof}: {len(d1)} scenarios x 3 executions (16 / 5 / 9 workers, PYTHONHASHSEED 0 / 0 / 987654): '
+              f'{"identical" if not mism else "MISMATCH at " + str(mism[:8])}', flush=True)
+    print(f'selftest: {total} scenarios, {bad} mismatches')
+    return 0 if bad == 0 else 2
+
+
 def main(argv=None):
     ap = argparse.ArgumentParser()
     ap.add_argument('prop')
@@ -189,6 +258,25 @@ def main(argv=None):
     ap.add_argument('--wall', type=int)
     a = ap.parse_args(argv)
     pid = a.prop
+    if pid == 'selftest':
+        return selftest(a)
+    if pid == 'regress':
+        # regression corpus: witnesses of repaired defects must hold on the current tree; witnesses of open findings must still fail
+        rc = 0
+        for k in core.load_known_findings():
+            w = k.get('witness')
+            if not w:
+                continue
+            r = replay(k['property'], str(core.VERIF / w))
+            if k['status'] == 'fixed' and r != 0:
+                print(f'REGRESSION: {k["id"]} ({k["property"]}) returned: {w}')
+                rc = 1
+        return rc
+    if pid == 'digests':
+        eng, prof = a.profile.split(':')
+        d, _ = digests(eng, prof, int(os.environ.get('VERIF_SEED', '0') or 0), a.n, a.workers)
+        print(json.dumps(d))
+        return 0
     if pid not in PROPS:
         print(f'property {pid} has no check (see MANIFEST.json not_applicable)')
         return 2
@@ -214,8 +302,11 @@ def generic_runner(pid, tier, seed, a, cfg):
         plan = [(p, n) for p, n in plan if p == a.profile] or [(a.profile, 100)]
     known = [k for k in core.load_known_findings() if k.get('property') == pid and k.get('status') == 'open']
     known_zones = {k['zone'] for k in known}
+    extra_cov = {}
+    if cfg.get('prepare') and not a.profile:
+        plan = list(plan) + cfg['prepare'](engine, tier, seed, a, extra_cov)
     for profile, n in plan:
-        n = a.n or n
+        n = (a.n or n) if not profile.startswith('explicit') else n
         recs, hung = core.run_batch(engine, profile, pid, seed, n, workers=a.workers, wall=a.wall or (600 if tier == 'quick' else 5400),
                                     opts={'sample': 3, 'known_zones': sorted(known_zones)})
         hung_any |= hung
@@ -310,6 +401,7 @@ def generic_runner(pid, tier, seed, a, cfg):
         'exhaustive': False,
     }
     coverage.update(cfg.get('extra_coverage', lambda recs: {})(ran))
+    coverage.update(extra_cov)
     if not a.no_evidence:
         core.write_evidence(pid, tier, seed, cfg['level'], coverage, wall, len(violations), cfg.get('assumptions_override') or (ASSUME_STORE + cfg.get('assumptions', [])))
     print(f'[{pid}] runs={len(ran)} nontrivial={len(nontrivial)} wall={wall:.1f}s runs/h={coverage["runs_per_hour"]} fired={fired_tot} '
